@@ -110,14 +110,16 @@ CHECKS = {
     category='other',
     text='Unbounded for the event-driven SIR simulators: _process_trans_SIR_ appends (time, source, target) exactly when the target turns S->I at that time; the global event-loop '
          'invariant (queue rule lemma) keeps one entry per infection, source-less entries = the initial nodes at tmin, sourced entries along an edge from an already infected node '
-         'not after its recovery, non-decreasing times, every node target of at most one entry (forest). Constructor binding of every Simulation_Investigation(...) call. '
-         'All other simulators (Gillespie, SIS, simple contagion, discrete) only by the bounded native stand-in - hence level other.',
+         'not after its recovery, non-decreasing times, every node target of at most one entry (forest). Gillespie_SIR: candidate-set invariants and, with return_full_data=True, the same per-entry '
+         'validity / completeness / forest facts as a loop invariant over the recorded infection and recovery times; exactly that list is handed to the object. Constructor binding of every '
+         'Simulation_Investigation(...) call. SIS, simple contagion and discrete simulators only by the bounded native stand-in - hence level other.',
     design_ref='DESIGN.md section 5 "C09"',
     note='As C01/C11; transmissions()/transmission_tree() accessors checked natively.',
     technique='contract-based deductive verification (handler postcondition + global invariant via queue-rule lemma, z3) + constructor-binding analysis + bounded native stand-in'),
  'C10': dict(
     category='other',
-    text='_transform_to_node_history_ (SIR branch) under unbounded contract: every node gets a history starting at tmin, infection/recovery entries in time order; constructor binding. '
+    text='_transform_to_node_history_ (SIR branch) under unbounded contract: every node gets a history starting at tmin, infection/recovery entries in time order; constructor binding; Gillespie_SIR (return_full_data=True): the recorded times are linked to the '
+         'statuses and rows of the run by the loop invariant and the histories handed over are built from exactly these. '
          'summary/t/S/I/R/node_status/get_statuses against brute-force head counts on all short histories (bounded, exhaustive over a small alphabet); both return modes of '
          'every simulator agree under the same seeds (bounded).',
     design_ref='DESIGN.md section 5 "C10"',
